@@ -142,11 +142,13 @@ def char_classifiers(prog, run, rid, which=None):
         "isControlWithShortEscapeSequence": lambda c: 1 if 7 <= c <= 13 else 0,
         "isControl": lambda c: 1 if (c < 32 or c == 127) else 0,
     }
-    inline = {"SimpleString::" + k for k in table}
+    inline = {"SimpleString::" + k for k in table} | {g.qn for g in prog.functions.values() if g.file == "src/CppUTest/SimpleString.cpp" and not g.cls and g.d.get("static")}
     for name, oracle in table.items():
         if which is not None and name not in which:
             continue
-        f = prog.fn("SimpleString::" + name)
+        f = prog.fn("SimpleString::" + name, required=(name not in ("isUpper", "isControlWithShortEscapeSequence")))
+        if f is None:
+            continue        # (a helper of another classifier that may live elsewhere: ToLower / isControl are folded with it inlined)
         run.analysed(f)
         bad = []
         unknown = None
